@@ -27,6 +27,13 @@ type restCase struct {
 	// Framing of the request body: "" (Content-Length), "chunked", "expect-100"
 	Framing string `json:"framing,omitempty"`
 	Note    string `json:"note,omitempty"`
+	// RawBody, when set, is the body text actually sent: the same values as F in another spelling (numbers as
+	// 100.0 / 1e2 / "100", keys in another order, fields the endpoint does not use present with a wrong type).
+	// Such a request is not well-formed; it may be refused (status >= 400) or must be answered for the values it spells.
+	RawBody string `json:"raw_body,omitempty"`
+	// RawPath, when set, is the request target actually sent: another spelling of the endpoint's path (doubled
+	// slash, dot segments, percent-encoded letters). Same two-answer rule: refused, or answered correctly.
+	RawPath string `json:"raw_path,omitempty"`
 }
 
 func fStr(f map[string]any, k string) string {
@@ -124,7 +131,13 @@ func judgeREST(c *Ctx, srv *server, k restCase) {
 	if k.F != nil {
 		body = jsonBody(k.F)
 	}
+	if k.RawBody != "" {
+		body = []byte(k.RawBody)
+	}
 	path := "/" + k.EP
+	if k.RawPath != "" {
+		path = k.RawPath
+	}
 	if k.Query != "" {
 		path += "?" + k.Query
 	}
@@ -157,6 +170,13 @@ func judgeREST(c *Ctx, srv *server, k restCase) {
 			r.Inconclusive("a well-formed request and GET / both went unanswered: " + k.EP)
 			return
 		}
+	}
+	if (k.RawBody != "" || k.RawPath != "") && res.Status >= 300 {
+		r.Count("respelled_requests_refused", 1)
+		return
+	}
+	if k.RawBody != "" || k.RawPath != "" {
+		r.Count("respelled_requests_answered", 1)
 	}
 	if res.Status != 200 {
 		v("not-200", "a well-formed request is not answered with 200", "200", fmt.Sprintf("%d %s", res.Status, clipS(string(res.Body))))
@@ -603,6 +623,111 @@ func c18Cases(c *Ctx, n int) []restCase {
 }
 
 // c18LargeCases: well-formed requests whose success responses are several KiB to hundreds of KiB.
+// respell turns a well-formed HOTP/TOTP request into a value-equivalent text that a strict decoder may refuse:
+// numbers written as 100.0, 1e2 or "100", keys shuffled, and fields this endpoint does not use (or unknown ones)
+// present with a wrong JSON type, before or after the others.
+func respell(rng *gen.RNG, k restCase) (restCase, bool) {
+	switch k.EP {
+	case "hotp/generate", "hotp/validate", "totp/generate", "totp/validate":
+	default:
+		return k, false
+	}
+	if k.F == nil {
+		return k, false
+	}
+	if ts, ok := k.F["timestamp"]; strings.HasPrefix(k.EP, "totp/") && (!ok || fmt.Sprint(ts) == "0") {
+		return k, false // "now": not reproducible as a value
+	}
+	type kv struct{ k, v string }
+	var items []kv
+	changed := false
+	for name, val := range k.F {
+		var text string
+		switch x := val.(type) {
+		case uint64:
+			text = fmt.Sprint(x)
+			switch rng.Intn(6) {
+			case 0:
+				text += ".0"
+				changed = true
+			case 1:
+				text += ".000"
+				changed = true
+			case 2:
+				if x%10 == 0 && x > 0 && x < 1<<50 {
+					z := 0
+					for x%10 == 0 {
+						x /= 10
+						z++
+					}
+					text = fmt.Sprintf("%de%d", x, z)
+				} else {
+					text += "e0"
+				}
+				changed = true
+			case 3:
+				text = "\"" + text + "\""
+				changed = true
+			}
+		default:
+			b, _ := json.Marshal(val)
+			text = string(b)
+		}
+		items = append(items, kv{name, text})
+	}
+	for i := len(items) - 1; i > 0; i-- {
+		j := rng.Intn(i + 1)
+		items[i], items[j] = items[j], items[i]
+	}
+	unused := []string{"counter"}
+	if strings.HasPrefix(k.EP, "hotp/") {
+		unused = []string{"timestamp", "period"}
+	}
+	if strings.HasSuffix(k.EP, "/generate") {
+		unused = append(unused, "skew", "code")
+	}
+	unused = append(unused, "comment", "x")
+	if rng.Intn(3) != 0 {
+		u := gen.Pick(rng, unused)
+		if _, present := k.F[u]; !present {
+			bad := kv{u, gen.Pick(rng, []string{"1743879194.5", "\"x\"", "true", "{}", "[1]", "-1", "1e400", "null", "\"\""})}
+			if rng.Bool() {
+				items = append([]kv{bad}, items...)
+			} else {
+				items = append(items, bad)
+			}
+			changed = true
+		}
+	}
+	if !changed {
+		return k, false
+	}
+	var sb strings.Builder
+	sb.WriteByte('{')
+	for i, it := range items {
+		if i > 0 {
+			sb.WriteByte(',')
+		}
+		kb, _ := json.Marshal(it.k)
+		sb.Write(kb)
+		sb.WriteByte(':')
+		sb.WriteString(it.v)
+	}
+	sb.WriteByte('}')
+	k.RawBody = sb.String()
+	k.Note = "respelled request (refusal or the answer for the values written); " + k.Note
+	return k, true
+}
+
+// respellPath gives the endpoint's path in a non-canonical spelling.
+func respellPath(rng *gen.RNG, k restCase) restCase {
+	ep := k.EP
+	first := fmt.Sprintf("%%%02x", ep[0])
+	k.RawPath = gen.Pick(rng, []string{"//" + ep, "/./" + ep, "/x/../" + ep, "/docs/../" + ep, "/" + first + ep[1:], "/" + ep + "/", "/" + strings.ToUpper(ep), "/docs/%2e%2e/" + ep, "/" + strings.Replace(ep, "/", "//", 1), "/" + strings.Replace(ep, "/", "%2f", 1)})
+	k.Note = "non-canonical spelling of the path (refusal or the correct answer); " + k.Note
+	return k
+}
+
 func c18LargeCases(c *Ctx, n int) []restCase {
 	rng := c.RNG.Fork(182)
 	var out []restCase
